@@ -4,7 +4,8 @@ from __future__ import annotations
 import ast
 import copy
 import re
-from typing import Any, Iterator
+from dataclasses import dataclass
+from typing import Any, Iterator, NamedTuple
 
 from jinja2 import nodes
 
@@ -56,15 +57,32 @@ def run(rep: Report, ctx: Any) -> str:
         n = _inline(n, mdefs)
         return leaves(n.left) | leaves(n.right) if isinstance(n, nodes.Add) else {expr_text(n)}
 
+    def admitted(n: nodes.Node) -> set[bool] | None:
+        """the values of `.required` among the properties the iterable yields (None: not a selection of the model's properties that is
+        understood): required_properties holds exactly the properties with .required, optional_properties the others"""
+        n = _inline(n, mdefs)
+        if isinstance(n, nodes.Add):
+            l_, r_ = admitted(n.left), admitted(n.right)
+            return None if l_ is None or r_ is None else l_ | r_
+        if isinstance(n, nodes.Filter) and n.node is not None and n.name in ("selectattr", "rejectattr", "list"):
+            inner = admitted(n.node)
+            if n.name == "list" or inner is None:
+                return inner
+            sel = len(n.args) == 1 and isinstance(n.args[0], nodes.Const) and n.args[0].value == "required" and not n.kwargs
+            return inner & ({True} if n.name == "selectattr" else {False}) if sel else None
+        return {REQ: {True}, OPT: {False}}.get(expr_text(n))
+
     prop_loops = [(f, leaves(f.iter)) for f in mt.tree.find_all(nodes.For)]
     prop_loops = [(f, lv) for f, lv in prop_loops if any(REQ in x or OPT in x for x in lv)]
-    rep.floor("property_loops", len(prop_loops), 6)
-    loop_dom = {expr_text(f.iter): lv for f, lv in prop_loops}
+    rep.floor("property_loops", len(prop_loops), 4)
+    loop_dom = {expr_text(f.iter): (admitted(f.iter) or set()) for f, lv in prop_loops}
     pvars = {f"{t}[*]" for t in loop_dom}
 
     def strip_pv(t: str) -> str:
         for v in sorted(pvars, key=len, reverse=True):
             t = t.replace(v, "<p>")
+        while "(<p>)" in t:      # a set variable that stands for the loop variable reads as its parenthesised definition
+            t = t.replace("(<p>)", "<p>")
         return t
 
     def natom(t: str) -> str:
@@ -79,40 +97,46 @@ def run(rep: Report, ctx: Any) -> str:
     by_place = {}
     for e in key_sites:
         by_place.setdefault((e.macro, e.expr, e.ordinal), e)
-    rep.floor("wire_key_sites", len(by_place), 2)
-    exprs = {strip_pv(e.hole) for e in by_place.values()}
+    # the reader really pops the key.  A pop form is one value of a text the template assembles: `d.pop("<key>")` or
+    # `d.pop("<key>", <default>)`.  What is examined is the set of texts each site can yield (sa `_Texts`), not how the site is
+    # written: concatenation with `+` / `~` / `%` / format, a conditional expression or a set variable for a part, `{% if %}` around
+    # whole `set`s, a `{% set %}...{% endset %}` block, a macro of this template returning the text, or the pop written out in the
+    # template text are the same forms.  Every conditional part is a guard of the form, like an enclosing `{% if %}`.
+    texts = _Texts(mt)
+    pops = _pop_forms(mt, texts)
+    rep.floor("pop_forms", len(pops), 1)
+    rep.floor("wire_key_sites", len(by_place), 1)
+    exprs = {strip_pv(e.hole) for e in by_place.values()} | {strip_pv(pf.key) if pf.key is not None else pf.text for pf in pops}
     rep.check(exprs == {"<p>.name"}, "R02.1", "model.py.jinja::wire-key-expression",
               f"writers and readers disagree on the wire key: {sorted(exprs)}", where=f"{PKG}/templates/model.py.jinja",
               lhs=sorted(exprs), rhs=["<property>.name"])
+    # the writers are the holes of to_dict (the macro and the macros of the template it prints) inside a "..." literal; the reader is a
+    # pop form inside a loop over the properties whose text reaches the output
+    to_dict_region = {m.name for m in _macro_region(mt, "_to_dict")}
     places = {(e.macro, strip_pv(e.expr)) for e in by_place.values()}
-    rep.check(("_to_dict", "<p>.name") in places and any(m == "<top>" and "d.pop(" in x for m, x in places), "R02.1",
+    popped = sorted({pf.text for pf in pops if pf.printed and pf.frag.loops and pf.key is not None and strip_pv(pf.key) == "<p>.name"})
+    rep.check(any(m in to_dict_region and x == "<p>.name" for m, x in places) and bool(popped), "R02.1",
               "model.py.jinja::both-writers-and-reader", "a writer (to_dict) or the reader (from_dict pops) no longer keys by property.name",
-              where=f"{PKG}/templates/model.py.jinja", lhs=sorted(places), rhs="_to_dict x2 + the d.pop(...) source")
-    # the reader really pops the key: fragments 'd.pop("' + name + '")' (the variable holding them may have any name)
-    pops = [n for n in mt.tree.find_all(nodes.Assign) if _is_pop(n)]
-    rep.floor("pop_forms", len(pops), 2)
-    for n in pops:
-        txt = expr_text(n.node)
-        parts = _flatten_add(n.node)
-        shape = len(parts) == 3 and isinstance(parts[0], nodes.Const) and parts[0].value == 'd.pop("' and strip_pv(expr_text(parts[1])) == "<p>.name" \
-            and isinstance(parts[2], nodes.Const) and parts[2].value in ('")', '", UNSET)')
-        rep.check(shape, "R02.1", f"model.py.jinja::pop[{'optional' if 'UNSET' in txt else 'required'}]",
-                  "from_dict does not pop the key written by to_dict", where=f"{PKG}/templates/model.py.jinja:{n.lineno}", lhs=txt,
+              where=f"{PKG}/templates/model.py.jinja", lhs=[sorted(places), popped], rhs="\"<property.name>\" written in _to_dict + a printed d.pop(\"<property.name>\"...)")
+    for pf in pops:
+        key_ok = pf.key is not None and strip_pv(pf.key) == "<p>.name"
+        rep.check(key_ok and pf.default in (None, "UNSET"), "R02.1", f"model.py.jinja::pop[{'optional' if pf.default is not None or 'UNSET' in pf.text else 'required'}]",
+                  "from_dict does not pop the key written by to_dict", where=f"{PKG}/templates/model.py.jinja:{pf.frag.line}", lhs=pf.text,
                   rhs="'d.pop(\"' + property.name + '\"...)'")
     # same domain.  required_properties holds exactly the properties with .required, optional_properties the others: a site inside a
     # loop serves the values of `.required` its loop domain admits and its guards (if / elif / else / loop filter) allow.  The sites
     # writing a wire key in to_dict must together serve both values, so must the pops of from_dict; a loop that neither writes nor
     # pops a wire key (conversions, constructor keywords, declarations) must iterate the whole domain itself.
     def served(fr: tplq.Frag) -> set[bool]:
-        lv = loop_dom.get(fr.loops[-1], set()) if fr.loops else set()
-        admits = ({True} if REQ in lv else set()) | ({False} if OPT in lv else set()) if lv <= {REQ, OPT} else set()
+        admits = loop_dom.get(fr.loops[-1], set()) if fr.loops else set()
         out: set[bool] = set()
         for env in _emitted_envs(fr, natom):
             out |= ({env["<p>.required"]} & admits) if "<p>.required" in env else admits
         return out
 
-    writers = [fr for fr in tplq.frags(td.body) if fr.kind == "expr" and fr.loops and fr.text == f"{fr.loops[-1]}[*].name"]
-    readers = [fr for fr in _stmt_frags(mt.tree.body, (nodes.Assign,)) if _is_pop(fr.node) and fr.loops]
+    writers = [fr for fr in _region_frags(mt, td.body) if fr.kind == "expr" and fr.loops and strip_pv(fr.text) == "<p>.name"]
+    readers = [pf.frag for pf in pops if pf.frag.loops]
+    no_default = {id(pf.frag) for pf in pops if pf.default is None}
     for what, sites, key in (("to_dict writes", writers, "_to_dict::writers-cover-domain"), ("from_dict pops", readers, "from_dict::pops-cover-domain")):
         got: set[bool] = set()
         for fr in sites:
@@ -122,23 +146,27 @@ def run(rep: Report, ctx: Any) -> str:
                   where=f"{PKG}/templates/model.py.jinja", lhs=sorted(got), rhs=[False, True])
     # a pop without default raises KeyError when the key is absent: it may only serve required properties
     for fr in readers:
-        if "UNSET" not in expr_text(fr.node.node):
+        if id(fr) in no_default:
             rep.check(served(fr) <= {True}, "R02.1", "model.py.jinja::pop[required]::only-when-required",
                       "a property that is not required is popped without a default: a valid instance that omits it makes from_dict raise KeyError",
                       where=f"{PKG}/templates/model.py.jinja:{fr.line}", lhs=sorted(served(fr)), rhs=[True])
-    site_nodes = [fr.node for fr in writers + readers]
+    site_nodes = [fr.via for fr in writers + readers]
     for f, lv in prop_loops:
         txt = expr_text(_inline(f.iter, mdefs))
         has_site = any(x is s for s in site_nodes for x in f.find_all(type(s)))
-        ok = lv == {REQ, OPT} or (bool(lv) and lv < {REQ, OPT} and has_site)
+        adm = loop_dom[expr_text(f.iter)]
+        ok = adm == {True, False} or (bool(adm) and has_site)
         rep.check(ok, "R02.1", f"model.py.jinja::domain[{txt}]@{_macro_of(mt, f)}",
                   "a loop over the model's properties iterates another domain than required + optional (a property would be written but "
                   "not read, or the reverse)", where=f"{PKG}/templates/model.py.jinja:{f.lineno}", lhs=txt, rhs=dom)
     # python side: python_name everywhere
-    kw = [fr for fr in tplq.frags(mt.tree.body) if fr.kind == "expr" and len(fr.loops) == 1 and loop_dom.get(fr.loops[0]) == {REQ, OPT}
-          and fr.text == f"{fr.loops[0]}[*].python_name"]
-    rep.check(len(kw) >= 2, "R02.1", "model.py.jinja::constructor-keywords", "cls(...) is not called with python_name=python_name for every property",
-              where=f"{PKG}/templates/model.py.jinja", lhs=len(kw), rhs=">= 2 holes in the keyword list")
+    # python side: python_name everywhere: in a loop over the whole domain a keyword argument `<python_name>=<python_name>` is printed
+    top = _region_frags(mt, mt.tree.body)
+    kw = [a for a, eq, b_ in zip(top, top[1:], top[2:]) if a.kind == "expr" and b_.kind == "expr" and eq.kind == "data" and eq.text.strip() == "="
+          and a.via is b_.via and a.loops and loop_dom.get(a.loops[-1]) == {True, False}
+          and strip_pv(a.text) == strip_pv(b_.text) == "<p>.python_name"]
+    rep.check(len(kw) >= 1, "R02.1", "model.py.jinja::constructor-keywords", "cls(...) is not called with python_name=python_name for every property",
+              where=f"{PKG}/templates/model.py.jinja", lhs=len(kw), rhs="<property.python_name>=<property.python_name> for every property")
 
     # ---- R02.2 / R02.3 ----------------------------------------------------------------------------------------------------
     n_k = 0
@@ -181,7 +209,7 @@ def run(rep: Report, ctx: Any) -> str:
                                               expr_text(c2.args[0]) == "construct_function" for c2 in cons.find_all(nodes.Call))
             rep.check(routed, "R02.2", f"{c.name}::construct-routed", "construct does not go through construct_template(construct_function, ...)",
                       where=f"{PKG}/templates/{ti.name}", lhs=None, rhs="construct_template(construct_function, property, source)")
-    rep.floor("property_kinds", n_k, 16)
+    rep.floor("property_kinds", n_k, 8)
     # list / union delegate to the inner template in both directions: reachable from construct (transform) there is a call
     # ALIAS.construct(X, ...) (ALIAS.transform(X, ...)) where ALIAS is the import of "property_templates/" + X.template and X is the
     # inner property (property.inner_property / an element of property.inner_properties); the alias and X may be spelled anyhow
@@ -194,14 +222,16 @@ def run(rep: Report, ctx: Any) -> str:
                   lhs=got_d, rhs="construct and transform of the inner property's template, called with the inner property")
 
     # ---- R02.4 / R02.5 ---------------------------------------------------------------------------------------------------------
-    frs = list(tplq.frags(td.body))
-    upd_add = next((f for f in frs if f.kind == "data" and "field_dict.update(self.additional_properties)" in f.text), None)
-    loop_add = next((f for f in frs if f.kind == "data" and "for prop_name, prop in self.additional_properties.items()" in f.text), None)
-    upd_decl = next((f for f in frs if f.kind == "data" and "field_dict.update({" in f.text), None)
-    rep.check(upd_add is not None and loop_add is not None and upd_decl is not None and max(upd_add.line, loop_add.line) < upd_decl.line, "R02.4",
+    frs = _region_frags(mt, td.body)     # in output order, the macros that to_dict prints included
+
+    def first(text: str) -> int | None:
+        return next((i for i, f in enumerate(frs) if f.kind == "data" and text in f.text), None)
+
+    upd_add, loop_add, upd_decl = first("field_dict.update(self.additional_properties)"), \
+        first("for prop_name, prop in self.additional_properties.items()"), first("field_dict.update({")
+    rep.check(upd_add is not None and loop_add is not None and upd_decl is not None and max(upd_add, loop_add) < upd_decl, "R02.4",
               "model.py.jinja::_to_dict::additional-before-declared", "additional properties are not merged before the declared keys (a declared key "
               "could be overwritten by an undeclared one)", where=f"{PKG}/templates/model.py.jinja:{td.lineno}")
-    top = list(tplq.frags(mt.tree.body))
     rem = [f for f in top if f.kind == "data" and re.search(r"\.additional_properties = (d|additional_properties)\b", f.text)]
     rep.check(len(rem) >= 1 and any(re.search(r"\.additional_properties = d\b", f.text) for f in rem), "R02.4",
               "model.py.jinja::from_dict::remainder", "from_dict does not keep the remainder of the popped dict as additional properties",
@@ -466,7 +496,7 @@ def _imports_parity(rep: Report, ix: Any) -> None:
                       f"the imports of `{r}` are collected but, on some path, not its lazy imports: a model class named by the emitted "
                       "decode/encode code (inside a list or union) is never imported and from_dict / to_dict raise NameError",
                       where(f, c), lhs=[where(f, c2) for r2, c2 in lazy if r2 == r], rhs="get_lazy_imports on every path that has get_imports")
-    rep.floor("model_import_sites", n_sites, 2)
+    rep.floor("model_import_sites", n_sites, 1)
     # kinds that forward get_imports to inner properties forward get_lazy_imports to the same
     for c in ix.property_classes():
         gi, gl = c.methods.get("get_imports"), c.methods.get("get_lazy_imports")
@@ -551,33 +581,334 @@ def _emitted_envs(fr: tplq.Frag, natom: Any) -> Iterator[dict[str, bool]]:
             yield env
 
 
-def _stmt_frags(body: list[nodes.Node], types: tuple, guards: tuple = (), gnodes: tuple = (), loops: tuple = ()) -> Iterator[tplq.Frag]:
-    """like tplq.frags, for statement nodes of the given types (e.g. `set`) instead of output"""
+@dataclass
+class _Stmt(tplq.Frag):
+    via: Any = None        # the statement of the walked body through which this one is reached (itself unless it sits in a called macro)
+    siblings: Any = None   # the body (list of statements) it belongs to
+    scope: Any = None      # the body of the called macro it sits in (parameters replaced by the arguments); None: the walked body itself
+
+
+def _stmt_frags(body: list[nodes.Node], types: tuple, guards: tuple = (), gnodes: tuple = (), loops: tuple = (), ti: Any = None,
+                via: Any = None, scope: Any = None, depth: int = 0) -> Iterator[_Stmt]:
+    """like tplq.frags, for statement nodes of the given types (e.g. `set`) instead of output.  With `ti`, a printed call of a macro of
+    this template (`{{ m(...) | f }}`) is followed into the macro's body, the parameters replaced by the arguments: the statements of
+    the macro are statements of the region, under the guards and loops of the call."""
     for n in body:
+        v = via if via is not None else n
         if isinstance(n, types):
-            yield tplq.Frag("stmt", type(n).__name__, n.lineno, guards, gnodes, loops, n)
+            yield _Stmt("stmt", type(n).__name__, n.lineno, guards, gnodes, loops, n, v, body, scope)
         if isinstance(n, nodes.If):
             t = expr_text(n.test)
-            yield from _stmt_frags(n.body, types, guards + ((t, True),), gnodes + (n.test,), loops)
+            yield from _stmt_frags(n.body, types, guards + ((t, True),), gnodes + (n.test,), loops, ti, via, scope, depth)
             neg, gn = guards + ((t, False),), gnodes + (n.test,)
             for el in n.elif_:
                 t2 = expr_text(el.test)
-                yield from _stmt_frags(el.body, types, neg + ((t2, True),), gn + (el.test,), loops)
+                yield from _stmt_frags(el.body, types, neg + ((t2, True),), gn + (el.test,), loops, ti, via, scope, depth)
                 neg, gn = neg + ((t2, False),), gn + (el.test,)
             if n.else_:
-                yield from _stmt_frags(n.else_, types, neg, gn, loops)
+                yield from _stmt_frags(n.else_, types, neg, gn, loops, ti, via, scope, depth)
         elif isinstance(n, nodes.For):
             g2, n2 = (guards + ((expr_text(n.test), True),), gnodes + (n.test,)) if n.test is not None else (guards, gnodes)
-            yield from _stmt_frags(n.body, types, g2, n2, loops + (expr_text(n.iter),))
+            yield from _stmt_frags(n.body, types, g2, n2, loops + (expr_text(n.iter),), ti, via, scope, depth)
             if n.else_:
-                yield from _stmt_frags(n.else_, types, guards, gnodes, loops)
+                yield from _stmt_frags(n.else_, types, guards, gnodes, loops, ti, via, scope, depth)
         elif isinstance(n, (nodes.With, nodes.Scope, nodes.CallBlock, nodes.FilterBlock, nodes.AssignBlock)):
-            yield from _stmt_frags(getattr(n, "body", []), types, guards, gnodes, loops)
+            yield from _stmt_frags(getattr(n, "body", []), types, guards, gnodes, loops, ti, via, scope, depth)
+        elif isinstance(n, nodes.Output) and ti is not None and depth < 4:
+            for x in n.nodes:
+                mb = _bound_body(ti, _unfiltered(x))
+                if mb is not None:
+                    yield from _stmt_frags(mb, types, guards, gnodes, loops, ti, v, mb, depth + 1)
 
 
-def _is_pop(n: nodes.Node) -> bool:
-    first = _flatten_add(n.node)[0] if isinstance(n, nodes.Assign) else None
-    return isinstance(first, nodes.Const) and str(first.value).startswith("d.pop(")
+def _region_frags(ti: Any, body: list[nodes.Node]) -> list[_Stmt]:
+    """like tplq.frags (text and holes in output order), following the macros of the template that the body prints"""
+    out: list[_Stmt] = []
+    for st in _stmt_frags(body, (nodes.Output,), ti=ti):
+        for c in st.node.nodes:
+            data = isinstance(c, nodes.TemplateData)
+            out.append(_Stmt("data" if data else "expr", c.data if data else expr_text(c), c.lineno, st.guards, st.guard_nodes, st.loops, c,
+                             st.via, st.siblings, st.scope))
+    return out
+
+
+def _unfiltered(x: Any) -> Any:
+    while isinstance(x, nodes.Filter) and x.node is not None:
+        x = x.node
+    return x
+
+
+def _bound_body(ti: Any, call: Any) -> list[nodes.Node] | None:
+    """the body of the macro of this template that `call` calls, its parameters replaced by the arguments of the call"""
+    if not (isinstance(call, nodes.Call) and isinstance(call.node, nodes.Name) and call.node.name in ti.macros):
+        return None
+    m = ti.macros[call.node.name]
+    params = [a.name for a in m.args]
+    binds: dict[str, list[nodes.Node]] = {}
+    for pn, d in zip(params[len(params) - len(m.defaults):], m.defaults):
+        binds[pn] = [d]
+    for pn, a in zip(params, call.args):
+        binds[pn] = [a]
+    for k in call.kwargs:
+        if k.key in params:
+            binds[k.key] = [k.value]
+    return [_inline(x, binds, 5) for x in m.body]   # depth 5: the arguments themselves are not looked up again
+
+
+# ---- the texts a template can assemble ----------------------------------------------------------------------------------------------
+class _Alt(NamedTuple):
+    parts: tuple          # str (literal text) | (expression node, text) (a hole: a value that is not known here)
+    guards: tuple         # ((test text, polarity), ...) under which this alternative is the value
+    gnodes: tuple
+
+
+_MAX_ALTS = 64
+_EMPTY = _Alt((), (), ())
+Env = dict    # {canonical name of a set variable: its definitions (_Stmt)} of the called macros being looked into
+
+
+class _Texts:
+    """Every value a text-building expression / a run of template statements can take, as alternatives `literal text + holes` with the
+    conditions that select them.  Indifferent to how the text is put together: `a + b`, `a ~ b`, `"..%s.." % x`, `"..{}..".format(x)`,
+    `x|format`, `A if T else B` (T guards A, `not T` guards B), a set variable (each of its definitions, under the guards of that
+    definition), a `set` block, `{% if %}` arms in a body, a call of a macro of this template (parameters replaced by arguments)."""
+
+    def __init__(self, ti: Any):
+        self.ti = ti
+        self.defs: Env = {}
+        self._single: dict[tuple, dict[str, list[nodes.Node]]] = {}
+        for body in [ti.tree.body] + [m.body for m in ti.macros.values()]:
+            for k, v in self.scope_defs(body).items():
+                self.defs.setdefault(k, []).extend(v)
+
+    @staticmethod
+    def scope_defs(body: list[nodes.Node] | None) -> Env:
+        out: Env = {}
+        for st in _stmt_frags(body or [], (nodes.Assign, nodes.AssignBlock)):
+            if isinstance(st.node.target, nodes.Name) and st.node.target.name.startswith("("):
+                out.setdefault(st.node.target.name, []).append(st)
+        return out
+
+    def lookup(self, name: str, env: Env) -> list[_Stmt]:
+        return env.get(name) or self.defs.get(name) or []
+
+    def hole(self, n: Any, env: Env) -> list[_Alt]:
+        """a value that is not text assembled here: shown as its expression, set variables with one definition replaced by it"""
+        key = tuple(sorted((k, id(v)) for k, v in env.items()))
+        if key not in self._single:
+            self._single[key] = {k: [st.node.node for st in v if isinstance(st.node, nodes.Assign)] for k, v in {**self.defs, **env}.items()}
+        return [_Alt(((n, expr_text(_inline(n, self._single[key])) if isinstance(n, nodes.Node) else str(n)),), (), ())]
+
+    @staticmethod
+    def _opaque(alts: list[_Alt]) -> bool:
+        return all(len(a.parts) == 1 and not isinstance(a.parts[0], str) for a in alts)
+
+    def _seq(self, pieces: list[list[_Alt]], whole: Any, env: Env) -> list[_Alt]:
+        out = [_EMPTY]
+        for alts in pieces:
+            out = [_Alt(x.parts + y.parts, x.guards + y.guards, x.gnodes + y.gnodes) for x in out for y in alts]
+            if len(out) > _MAX_ALTS:
+                return self.hole(whole, env)
+        return out
+
+    def _formatted(self, fmt: nodes.Node, style: str, args: list[nodes.Node], kwargs: dict[str, nodes.Node], whole: nodes.Node, depth: int,
+                   env: Env) -> list[_Alt]:
+        """fmt % args / fmt.format(*args, **kwargs) for every literal value fmt can take; placeholders `%s`, or `{}` / `{0}` / `{name}`"""
+        pat = r"%()s" if style == "%" else r"\{(\w*)\}"
+        out: list[_Alt] = []
+        for f in self.expr(fmt, depth + 1, env):
+            if not all(isinstance(p_, str) for p_ in f.parts):
+                return self.hole(whole, env)
+            text = "".join(f.parts)
+            rest = re.sub(pat, "", text)
+            if ("%" in rest) if style == "%" else ("{" in rest or "}" in rest):
+                return self.hole(whole, env)    # a placeholder or an escape of a kind not modelled
+            pieces: list[list[_Alt]] = []
+            pos, auto = 0, 0
+            for m in re.finditer(pat, text):
+                pieces.append([_Alt((text[pos:m.start()],), (), ())])
+                pos = m.end()
+                ref = m.group(1)
+                if ref in kwargs:
+                    pieces.append(self.expr(kwargs[ref], depth + 1, env))
+                    continue
+                i = int(ref) if ref.isdigit() else auto if ref == "" else len(args)
+                auto += ref == ""
+                if i >= len(args):
+                    return self.hole(whole, env)
+                pieces.append(self.expr(args[i], depth + 1, env))
+            pieces.append([_Alt((text[pos:],), (), ())])
+            out += [_Alt(a.parts, f.guards + a.guards, f.gnodes + a.gnodes) for a in self._seq(pieces, whole, env)]
+        return self.hole(whole, env) if self._opaque(out) or len(out) > _MAX_ALTS else out
+
+    def expr(self, n: Any, depth: int = 0, env: Env | None = None) -> list[_Alt]:
+        env = env or {}
+        if depth > 10 or not isinstance(n, nodes.Node):
+            return self.hole(n, env)
+        if isinstance(n, nodes.Const):
+            return [_Alt((n.value,), (), ())] if isinstance(n.value, str) else self.hole(n, env)
+        if isinstance(n, nodes.TemplateData):
+            return [_Alt((n.data,), (), ())]
+        if isinstance(n, (nodes.Add, nodes.Concat)):
+            pieces = [self.expr(x, depth + 1, env) for x in ([n.left, n.right] if isinstance(n, nodes.Add) else n.nodes)]
+            return self.hole(n, env) if all(self._opaque(p) for p in pieces) else self._seq(pieces, n, env)
+        if isinstance(n, nodes.CondExpr):
+            t = expr_text(n.test)
+            yes = [_Alt(a.parts, ((t, True),) + a.guards, (n.test,) + a.gnodes) for a in self.expr(n.expr1, depth + 1, env)]
+            no_ = [_Alt(a.parts, ((t, False),) + a.guards, (n.test,) + a.gnodes)
+                   for a in (self.expr(n.expr2, depth + 1, env) if n.expr2 is not None else [_EMPTY])]
+            return self.hole(n, env) if self._opaque(yes + no_) else yes + no_
+        if isinstance(n, nodes.Name):
+            out: list[_Alt] = []
+            for st in self.lookup(n.name, env):
+                vals = self.expr(st.node.node, depth + 1, env) if isinstance(st.node, nodes.Assign) else self.body(st.node.body, depth + 1, env)
+                out += [_Alt(a.parts, st.guards + a.guards, st.guard_nodes + a.gnodes) for a in vals]
+            return self.hole(n, env) if self._opaque(out) or len(out) > _MAX_ALTS else out
+        if isinstance(n, nodes.Mod):
+            return self._formatted(n.left, "%", list(n.right.items) if isinstance(n.right, nodes.Tuple) else [n.right], {}, n, depth, env)
+        if isinstance(n, nodes.Filter) and n.name == "format" and n.node is not None and not n.kwargs:
+            return self._formatted(n.node, "%", list(n.args), {}, n, depth, env)
+        if isinstance(n, nodes.Call):
+            f = n.node
+            if isinstance(f, nodes.Getattr) and f.attr == "format":
+                return self._formatted(f.node, "{", list(n.args), {k.key: k.value for k in n.kwargs}, n, depth, env)
+            mb = _bound_body(self.ti, n)
+            if mb is not None:
+                out = self.body(mb, depth + 1, {**env, **self.scope_defs(mb)})
+                return self.hole(n, env) if self._opaque(out) else out
+        return self.hole(n, env)
+
+    def body(self, body: list[nodes.Node], depth: int = 0, env: Env | None = None) -> list[_Alt]:
+        """the texts a run of statements prints (loops and blocks with their own semantics are holes)"""
+        env = env or {}
+        pieces: list[list[_Alt]] = []
+        for n in body:
+            if isinstance(n, nodes.Output):
+                pieces += [self.expr(x, depth + 1, env) for x in n.nodes]
+            elif isinstance(n, nodes.If):
+                arms: list[_Alt] = []
+                neg: tuple = ()
+                negn: tuple = ()
+                for test, arm in [(n.test, n.body)] + [(el.test, el.body) for el in n.elif_]:
+                    t = expr_text(test)
+                    arms += [_Alt(a.parts, neg + ((t, True),) + a.guards, negn + (test,) + a.gnodes) for a in self.body(arm, depth + 1, env)]
+                    neg, negn = neg + ((t, False),), negn + (test,)
+                arms += [_Alt(a.parts, neg + a.guards, negn + a.gnodes) for a in self.body(n.else_ or [], depth + 1, env)]
+                pieces.append(arms)
+            elif isinstance(n, (nodes.For, nodes.CallBlock, nodes.FilterBlock, nodes.Include, nodes.Block)):
+                pieces.append(self.hole(n, env))
+            elif isinstance(n, (nodes.With, nodes.Scope)):
+                pieces.append(self.body(n.body, depth + 1, env))
+        return self._seq(pieces, nodes.Const("<statements>"), env)
+
+    @staticmethod
+    def render(alt: _Alt) -> tuple[str, list[str]]:
+        """the alternative as text, hole k written \\x00k\\x01; and the texts of the holes"""
+        holes: list[str] = []
+        out = ""
+        for p_ in alt.parts:
+            if isinstance(p_, str):
+                out += p_
+            else:
+                out += f"\x00{len(holes)}\x01"
+                holes.append(p_[1])
+        return out, holes
+
+
+@dataclass
+class _PopForm:
+    frag: _Stmt                # where it is assembled, with every condition that selects this form as a guard
+    text: str                  # d.pop("<property.name>", UNSET)
+    key: str | None            # text of the expression that fills the whole "..." of the first argument; None: another shape
+    default: str | None        # second argument
+    printed: bool              # the text reaches the output: assembled in an output statement, or in a variable that one prints / passes on
+
+
+def _pop_forms(ti: Any, texts: _Texts) -> list[_PopForm]:
+    """every `d.pop(...)` the template's top level (with the macros it prints) can assemble, one per value of the assembling site"""
+    sites: list[tuple[_Stmt, list[_Alt]]] = []
+    seen: set[int] = set()
+
+    def maximal(st: _Stmt, e: Any, env: Env) -> None:
+        # the largest sub-expressions that evaluate to a pop text; a bare variable only refers to a site, it is none
+        if not isinstance(e, nodes.Node) or id(e) in seen:
+            return
+        if not isinstance(e, nodes.Name):
+            alts = texts.expr(e, 0, env)
+            if any("d.pop(" in p_ for a in alts for p_ in a.parts if isinstance(p_, str)):
+                seen.add(id(e))
+                sites.append((st, alts))
+                return
+        for ch in e.iter_child_nodes():
+            maximal(st, ch, env)
+
+    envs: dict[int, Env] = {}
+    stmts = list(_stmt_frags(ti.tree.body, (nodes.Assign, nodes.AssignBlock, nodes.Output), ti=ti))
+    in_block = {id(o) for st in stmts if isinstance(st.node, nodes.AssignBlock) for o in st.node.find_all(nodes.Output)}
+    for st in stmts:
+        n = st.node
+        env = envs.setdefault(id(st.scope), texts.scope_defs(st.scope))
+        if isinstance(n, nodes.Assign):
+            maximal(st, n.node, env)
+        elif isinstance(n, nodes.AssignBlock):
+            if id(n) not in seen:
+                seen.add(id(n))
+                sites.append((st, texts.body(n.body, 0, env)))
+        elif id(n) not in in_block:
+            for x in n.nodes:
+                if isinstance(x, nodes.TemplateData):
+                    if "d.pop(" in x.data and id(st.siblings) not in seen:
+                        seen.add(id(st.siblings))
+                        sites.append((st, texts.body(st.siblings, 0, env)))
+                elif _bound_body(ti, _unfiltered(x)) is None:    # (a printed macro of this template is walked as statements)
+                    maximal(st, x, env)
+    # names whose value is printed, or passed on in a printed expression: read in an output statement, or in the definition of such a name
+    printed: set[str] = set()
+    grew = True
+    while grew:
+        grew = False
+        for st in stmts:
+            if isinstance(st.node, nodes.Output) or (isinstance(st.node.target, nodes.Name) and st.node.target.name in printed):
+                for nm in st.node.find_all(nodes.Name):
+                    if nm.ctx == "load" and nm.name not in printed:
+                        printed.add(nm.name)
+                        grew = True
+    forms: list[_PopForm] = []
+    for st, alts in sites:
+        is_printed = isinstance(st.node, nodes.Output) or (isinstance(st.node.target, nodes.Name) and st.node.target.name in printed)
+        for a in alts:
+            fr = _Stmt(st.kind, st.text, st.line, st.guards + a.guards, st.guard_nodes + a.gnodes, st.loops, st.node, st.via, st.siblings, st.scope)
+            if not any(True for _ in _emitted_envs(fr, lambda t: t)):
+                continue   # contradictory conditions: never the value
+            txt, holes = texts.render(a)
+            for m in re.finditer(r"\bd\.pop\(", txt):
+                call = _call_text(txt, m.start(), m.end() - 1)
+                sm = re.fullmatch(r'd\.pop\(\s*"\x00(\d+)\x01"\s*(?:,\s*([^,()]+?)\s*)?\)', call)
+                shown = re.sub(r"\x00(\d+)\x01", lambda h: f"<{holes[int(h.group(1))]}>", call)
+                forms.append(_PopForm(fr, shown, holes[int(sm.group(1))] if sm else None, sm.group(2) if sm else None, is_printed))
+    return forms
+
+
+def _call_text(t: str, start: int, i: int) -> str:
+    """t[start:] up to the parenthesis that closes the one at t[i] (string literals are skipped)"""
+    depth, q, j = 0, "", i
+    while j < len(t):
+        ch = t[j]
+        if q:
+            if ch == "\\":
+                j += 1
+            elif ch == q:
+                q = ""
+        elif ch in "\"'":
+            q = ch
+        elif ch in "([{":
+            depth += 1
+        elif ch in ")]}":
+            depth -= 1
+            if depth == 0:
+                return t[start:j + 1]
+        j += 1
+    return t[start:]
 
 
 def _hole_text(n: nodes.Node, defs: dict[str, list[nodes.Node]]) -> str:
